@@ -225,6 +225,11 @@ func c17GenSession(r *rand.Rand, kind string, n int, big bool) c17Session {
 					ops = append(ops, map[string]interface{}{"op": "job", "g": gc})
 				}
 			}
+			if c < 2 {
+				// two clients hammer the job API: 400 rounds each of submit / poll without a pause / view
+				ops = append(ops, map[string]interface{}{"op": "addV", "g": gc, "vs": []interface{}{c17V("j0", "L", c17Data(r)), c17V("j1", "L", c17Data(r)), c17V("j2", "L", c17Data(r))}},
+					map[string]interface{}{"op": "job", "g": gc, "n": 400})
+			}
 			s.Clients = append(s.Clients, ops)
 		}
 		s.Readers = 2
@@ -846,36 +851,77 @@ func c17Apply(cli c17Cli, op map[string]interface{}, obs *c17Obs) bool {
 		}
 		return true
 	case "job":
+		// "n": the submit / poll / view round is repeated n times (a window of microseconds needs
+		// hundreds of rounds)
+		if n, ok := op["n"].(float64); ok && n > 1 {
+			one := map[string]interface{}{"op": "job", "g": g}
+			for i := 0; i < int(n); i++ {
+				if !c17Apply(cli, one, obs) {
+					return false
+				}
+			}
+			return true
+		}
+		if n, ok := op["n"].(int); ok && n > 1 {
+			one := map[string]interface{}{"op": "job", "g": g}
+			for i := 0; i < n; i++ {
+				if !c17Apply(cli, one, obs) {
+					return false
+				}
+			}
+			return true
+		}
 		job, err := cli.Submit(&gripql.GraphQuery{Graph: g, Query: gripql.NewQuery().V().Statements})
 		if err != nil {
 			return false
 		}
+		// poll as fast as a client can (the first 20000 polls without a pause) and view the job the
+		// moment it reads COMPLETE: what a complete job serves must be all of it (the count its status
+		// reports), whatever the spooling goroutine is still doing
 		deadline := time.Now().Add(5 * time.Second)
-		for time.Now().Before(deadline) {
+		var count uint64
+		complete := false
+		for i := 0; time.Now().Before(deadline); i++ {
 			st, err := cli.GetJob(g, job.Id)
 			if err != nil {
 				return false
 			}
 			if st.State == gripql.JobState_COMPLETE {
+				count = st.Count
+				complete = true
 				break
 			}
-			if _, err := cli.net.ListJobs(g); err != nil {
-				return false
+			if i >= 20000 {
+				if _, err := cli.net.ListJobs(g); err != nil {
+					return false
+				}
+				time.Sleep(time.Millisecond)
 			}
-			time.Sleep(time.Millisecond)
 		}
 		vc, err := cli.net.JobC.ViewJob(context.Background(), job)
 		if err != nil {
 			return false
 		}
+		rows := uint64(0)
 		for {
 			row, err := vc.Recv()
 			if err != nil {
 				break
 			}
+			rows++
 			if v := row.GetVertex(); v != nil {
+				if v.Gid == "" {
+					// a row decoded from a truncated line
+					obs.add(g, map[string]interface{}{"gid": "<job row without element>", "label": "JOB-VIEW", "data": Tag(map[string]interface{}{})}, false)
+					continue
+				}
 				obs.add(g, c17VOut(v), false)
 			}
+		}
+		if complete && rows != count {
+			// reported as an observation no client can have written: a COMPLETE job that serves
+			// fewer (or more) rows than its own count
+			obs.add(g, map[string]interface{}{"gid": fmt.Sprintf("<complete job served %d of %d rows>", rows, count), "label": "JOB-VIEW", "data": Tag(map[string]interface{}{})}, false)
 		}
 		return true
 	}
